@@ -83,38 +83,49 @@ def check(P: Project, R: Report) -> None:
     bufname = _chunks.accumulate_var(loop)
     if bufname:
         _chunks.line_cut_discipline(R, "R2", rd, loop, [bufname], rd.qual)
-    splits = [c for c in walk_local(loop) if isinstance(c, ast.Call) and isinstance(c.func, ast.Attribute) and c.func.attr in ("split", "splitlines", "rsplit", "partition")]
-    line_splits = [c for c in splits if isinstance(c.func.value, ast.Name)]
-    R.need(line_splits, "anchor: the read loop does not split a buffer into lines")
-    sp = line_splits[0]
-    buf = sp.func.value.id
-    ok_sep = sp.func.attr == "split" and len(sp.args) == 1 and isinstance(sp.args[0], ast.Constant) and sp.args[0].value in ("\n", b"\n") and not sp.keywords
-    R.ob("R2", "buffer is split on the constant LF only", ok_sep and len(line_splits) == 1, f"{rel}:{sp.lineno}", f"`{ast.unparse(sp)}` ({len(line_splits)} split calls)")
-    # accumulation across iterations
-    init_outside = [s for s in walk_local(rd.node) if isinstance(s, ast.Assign) and ast.unparse(s.targets[0]) == buf and s not in list(walk_local(loop))]
-    acc = [s for s in walk_local(loop) if isinstance(s, ast.AugAssign) and ast.unparse(s.target) == buf and isinstance(s.op, ast.Add)]
-    R.ob("R2", "buffer is initialised outside the loop and extended by every chunk", len(init_outside) == 1 and len(acc) >= 1, rel, f"init {len(init_outside)}, `+=` sites {len(acc)}")
-    # lines = buffer.split("\n"); buffer = lines[-1]; for line in lines[:-1]
-    parts = None
-    for s in walk_local(loop):
-        if isinstance(s, ast.Assign) and s.value is sp and isinstance(s.targets[0], ast.Name):
-            parts = s.targets[0].id
-    R.need(parts is not None, "the split result is not bound to a name")
-    rebind = [s for s in walk_local(loop) if isinstance(s, ast.Assign) and ast.unparse(s.targets[0]) == buf]
-    ok_carry = len(rebind) == 1 and ast.unparse(rebind[0].value) == f"{parts}[-1]"
-    R.ob("R2", "the last fragment is carried over as the new buffer", ok_carry, f"{rel}:{rebind[0].lineno if rebind else sp.lineno}", f"rebindings of the buffer: {[ast.unparse(s) for s in rebind]}")
-    inner = [l for l in walk_local(loop) if isinstance(l, ast.For) and ast.unparse(l.iter) == f"{parts}[:-1]"]
-    R.ob("R2", "exactly the complete fragments are processed, in order", len(inner) == 1, rel, f"loops over `{parts}[:-1]`: {len(inner)}")
-    R.need(len(inner) == 1, "per-line loop not found")
-    line_loop = inner[0]
-    order_ok = rebind and rebind[0].lineno < line_loop.lineno and sp.lineno < rebind[0].lineno
-    R.ob("R2", "split → carry-over → process order", bool(order_ok), rel, "")
+    buf = bufname
+    R.need(buf is not None, "anchor: the read loop has no carry-over buffer")
+    init_outside = [s_ for s_ in walk_local(rd.node) if isinstance(s_, ast.Assign) and ast.unparse(s_.targets[0]) == buf and s_ not in list(walk_local(loop))]
+    R.ob("R2", "buffer is initialised outside the loop and extended by every chunk", len(init_outside) == 1, rel, f"initialisations outside the loop: {len(init_outside)}")
+    verdict = None  # (ok, detail, line loop)
+    parts_name = None
+    LF = ("'\\n'", "b'\\n'")
+    split_assigns = [s_ for s_ in walk_local(loop) if isinstance(s_, ast.Assign) and isinstance(s_.value, ast.Call) and isinstance(s_.value.func, ast.Attribute) and s_.value.func.attr == "split" and ast.unparse(s_.value.func.value) == buf]
+    rebinds = [s_ for s_ in walk_local(loop) if isinstance(s_, ast.Assign) and any(ast.unparse(t) == buf for t in s_.targets)]
+    for sa_ in split_assigns:
+        tgt = sa_.targets[0]
+        args = [ast.unparse(a) for a in sa_.value.args]
+        if isinstance(tgt, ast.Name) and len(args) == 1 and args[0] in LF:
+            parts = tgt.id
+            parts_name = parts
+            loops_all = [l for l in walk_local(loop) if isinstance(l, ast.For) and ast.unparse(l.iter) in (parts, f"{parts}[:-1]")]
+            rb = [r for r in rebinds if r is not sa_]
+            if len(rb) == 1 and len(loops_all) == 1:
+                rbv = ast.unparse(rb[0].value)
+                it = ast.unparse(loops_all[0].iter)
+                if rbv == f"{parts}[-1]" and it == f"{parts}[:-1]":
+                    verdict = (True, "lines = buf.split(LF); buf = lines[-1]; for line in lines[:-1]", loops_all[0])
+                elif rbv == f"{parts}.pop()" and it == parts and rb[0].lineno < loops_all[0].lineno:
+                    verdict = (True, "lines = buf.split(LF); buf = lines.pop(); for line in lines", loops_all[0])
+                elif rbv == f"{parts}[-1]" and it == parts:
+                    verdict = (False, "the unterminated last fragment is processed as a line as well as carried over", loops_all[0])
+                elif it == f"{parts}[:-1]" and rbv != f"{parts}[-1]":
+                    verdict = (False, f"the carry-over is `{rbv}`, not the last fragment: a message cut by a read boundary loses its first part", loops_all[0])
+        elif isinstance(tgt, ast.Tuple) and len(tgt.elts) == 2 and isinstance(tgt.elts[0], ast.Starred) and ast.unparse(tgt.elts[1]) == buf and len(args) == 1 and args[0] in LF:
+            parts = ast.unparse(tgt.elts[0].value)
+            loops_all = [l for l in walk_local(loop) if isinstance(l, ast.For) and ast.unparse(l.iter) == parts]
+            if len(loops_all) == 1:
+                verdict = (True, "*lines, buf = buf.split(LF); for line in lines", loops_all[0])
+    R.need(verdict is not None, "the carry-over idiom of the read loop is written in a shape this rule cannot read (known: lines[-1]/lines[:-1], lines.pop(), *lines, buf = …)")
+    R.ob("R2", "the last fragment is carried over and exactly the complete fragments are processed, in order", verdict[0], f"{rel}:{verdict[2].lineno}", verdict[1], sample=f"R2 {rd.qual}: {verdict[1]}")
+    line_loop = verdict[2]
     # every complete non-blank line reaches the JSON parser and then the gate
     loads = [c for c in walk_local(line_loop) if isinstance(c, ast.Call) and call_name(c).endswith("json.loads")]
     R.ob("R2", "each complete line is parsed once", len(loads) == 1, rel, f"json.loads calls in the per-line loop: {len(loads)}")
 
     # ------------------------------------------------------------------ R3
-    pred = _stdio.loop_fallible(extra_total=safe_decoders)
+    # `.pop()` on the result of str.split (never empty) is total
+    pred = _stdio.loop_fallible(extra_total=set(safe_decoders) | ({f"{parts_name}.pop"} if parts_name else set()))
     body = ast.Module(body=loop.body, type_ignores=[])
     an, out = run_paths(body, fallible_pred=pred)
     an.parents = A.exception_parents(P)
